@@ -3128,14 +3128,12 @@ XPathProcessorImpl::isNodeTest(const XalanDOMString&    theToken)
     {
         return true;
     }
-    else if (theToken[0] == XalanUnicode::charLowLine ||
-             XalanXMLChar::isLetter(theToken[0]) == true)
-    {
-        return true;
-    }
     else
     {
-        return false;
+        // A name test is a name.  The tokenizer collects whatever
+        // stands between two delimiters, so that 'b;' or 'a?' arrive
+        // here as one token.
+        return XalanQName::isValidNCName(theToken);
     }
 }
 
